@@ -3,7 +3,9 @@
  * larger block as if they were the next bytes of the stream - no drop is reported.
  *
  * Build + run (exit status 1 and "DEFECT" on the affected tree, 0 and "ok" when fixed):
- *   gcc -O1 -w -D_GNU_SOURCE -I/repo/include -I/repo/src \
+ *   gcc -O1 -w -D_GNU_SOURCE -DLINUX -D__USE_GNU=1 -DHAVE_ACCEPT4 -DHAVE_EXPLICIT_BZERO -DHAVE_MEMMEM \
+ *       -DHAVE_MEMRCHR -DHAVE_PIPE2 -DHAVE_REALLOCARRAY -DHAVE_SOCK_CLOEXEC -DHAVE_SOCK_NONBLOCK \
+ *       -DHAVE_STRNCASECMP -I/repo/include -I/repo/src \
  *       /verif/harness/C19/repro/stale_after_larger_block.c /repo/src/utils/ring_buffer.c \
  *       -o /var/tmp/C19-scratch/stale && /var/tmp/C19-scratch/stale
  *
